@@ -215,7 +215,6 @@ func VerifC08Wire() {
 	vReach("end")
 }
 
-
 // VerifC08Reconnect: a socket write of the first connection is cut short by an error in the
 // middle of a caller-supplied text (a connection reset mid-send); the connection ends. On the
 // next connection of the same client the server end again sees nothing but whole lines of
